@@ -174,8 +174,32 @@ theorem walkSides_length (k m : Nat) : (walkSides k m).1.length = m * k := by
   | zero => simp [walkSides]
   | succ m ih => simp only [walkSides]; rw [walkSide_length, ih, Nat.succ_mul]
 
+/-- the translated inner loop (a fold that ignores its index) is the recursive `walkSide` -/
+theorem foldl_range_walkSide (i n : Nat) (acc : List HexCell) (h : HexCell) :
+    (List.range n).foldl (fun st (_ : Nat) => (st.1 ++ [st.2], Gen.hexNeighbor st.2 i)) (acc, h) = walkSide i n acc h := by
+  induction n generalizing acc h with
+  | zero => rfl
+  | succ n ih =>
+    rw [List.range_succ_eq_map, List.foldl_cons, List.foldl_map, walkSide]
+    exact ih (acc ++ [h]) (Gen.hexNeighbor h i)
+
+/-- **the translated loops of `hex_ring` are the recursive walk the lemmas speak about** -/
+theorem hexRing_eq_walk (k : Nat) : hexRing k = (walkSides k 6).1 := by
+  have inner : ∀ (i : Nat) (st : List HexCell × HexCell),
+      (List.range k).foldl (fun st (_ : Nat) => (st.1 ++ [st.2], Gen.hexNeighbor st.2 i)) st = walkSide i k st.1 st.2 := by
+    intro i st
+    exact foldl_range_walkSide i k st.1 st.2
+  have outer : ∀ m : Nat, (List.range m).foldl (fun st i => (List.range k).foldl (fun st (_ : Nat) => (st.1 ++ [st.2], Gen.hexNeighbor st.2 i)) st)
+      (([] : List HexCell), Gen.hexRingStart (k : Int)) = walkSides k m := by
+    intro m
+    induction m with
+    | zero => rfl
+    | succ m ih => rw [List.range_succ, List.foldl_append, ih]; simp only [List.foldl_cons, List.foldl_nil, inner]; rfl
+  unfold hexRing Gen.hexRing
+  exact congrArg Prod.fst (outer 6)
+
 theorem hexRing_length (k : Nat) : (hexRing k).length = 6 * k := by
-  unfold hexRing; exact walkSides_length k 6
+  rw [hexRing_eq_walk]; exact walkSides_length k 6
 
 theorem segCells_length (k : Nat) : (segCells k).length = 1 + 3 * k * (k + 1) := by
   induction k with
@@ -204,7 +228,7 @@ theorem hexStep_zero (h d : HexCell) : hexStep h d 0 = h := by
 
 theorem hexStep_neighbor (h : HexCell) (i : Nat) (t : Int) :
     hexStep (hexNeighbor h i) (Gen.hexDirections.getD i (0, 0, 0)) t = hexStep h (Gen.hexDirections.getD i (0, 0, 0)) (t + 1) := by
-  simp only [hexStep, hexNeighbor, Gen.hexAdd, Int.add_mul, Int.one_mul, Prod.mk.injEq]
+  simp only [hexStep, hexNeighbor, Gen.hexNeighbor, Gen.hexDirection, Gen.hexAdd, Int.add_mul, Int.one_mul, Prod.mk.injEq]
   omega
 
 theorem walkSide_spec (i n : Nat) (acc : List HexCell) (h : HexCell) :
@@ -240,7 +264,7 @@ theorem hexRing_mem (k : Nat) (c : HexCell) (hc : c ∈ hexRing k) :
   have d3 : Gen.hexDirections.getD 3 (0, 0, 0) = (-1, 0, 1) := rfl
   have d4 : Gen.hexDirections.getD 4 (0, 0, 0) = (-1, 1, 0) := rfl
   have d5 : Gen.hexDirections.getD 5 (0, 0, 0) = (0, 1, -1) := rfl
-  unfold hexRing at hc
+  rw [hexRing_eq_walk] at hc
   simp only [walkSides, walkSide_spec, d0, d1, d2, d3, d4, d5, Gen.hexRingStart, hexStep, List.nil_append,
     List.mem_append, List.mem_map, List.mem_range, Int.mul_one, Int.mul_zero, Int.mul_neg, Int.add_zero, Int.zero_add] at hc
   rcases hc with ((((⟨t, ht, e⟩ | ⟨t, ht, e⟩) | ⟨t, ht, e⟩) | ⟨t, ht, e⟩) | ⟨t, ht, e⟩) | ⟨t, ht, e⟩
@@ -267,7 +291,7 @@ theorem hexRing_eq (k : Nat) :
   have d3 : Gen.hexDirections.getD 3 (0, 0, 0) = (-1, 0, 1) := rfl
   have d4 : Gen.hexDirections.getD 4 (0, 0, 0) = (-1, 1, 0) := rfl
   have d5 : Gen.hexDirections.getD 5 (0, 0, 0) = (0, 1, -1) := rfl
-  unfold hexRing
+  rw [hexRing_eq_walk]
   simp only [walkSides, walkSide_spec, d0, d1, d2, d3, d4, d5, Gen.hexRingStart, hexStep, List.nil_append,
     Int.mul_one, Int.mul_zero, Int.mul_neg, Int.add_zero, Int.zero_add]
   congr 1
